@@ -415,7 +415,13 @@ func c07CheckInput(lines []string, s c07Setting, kind string, pos int) (msg stri
 		return "dump failed: " + err.Error(), ""
 	}
 	if d := harness.DiffMultiset(got, ref); d != "" {
-		what := map[string]string{"shortreads": "the reader returned short reads", "readerror": fmt.Sprintf("the reader failed after %d of %d bytes", rd.failAt, len(text)), "longline": fmt.Sprintf("line %d is a %d-byte comment", pos+1, len(l2[pos]))}[kind]
+		what := "the reader returned short reads"
+		switch kind {
+		case "readerror":
+			what = fmt.Sprintf("the reader failed after %d of %d bytes", rd.failAt, len(text))
+		case "longline":
+			what = fmt.Sprintf("line %d is a %d-byte comment", pos+1, len(l2[pos]))
+		}
 		return fmt.Sprintf("compilation reported success although %s, and the database does not hold the file's records: %s", what, d), ""
 	}
 	return "", ""
